@@ -15,6 +15,8 @@ CONSTANTS Chunks,
           GuardControl,   \* BOOLEAN: the control handler turns handler exceptions into an error response
           SafeDecode,     \* BOOLEAN: the wire decoder bounds every declared length against the bytes present, without wrap-around
           NoSigpipe,      \* BOOLEAN: writes to a socket whose remote end has gone away fail with an error (MSG_NOSIGNAL) instead of raising SIGPIPE
+          RelayClientChecked, \* BOOLEAN: request_chunk takes the relay fallback of a manifest's hints only when a relay client exists (the default
+                          \* configuration enables relaying but lists no relay endpoint, so there is none)
           GuardEndpoint,  \* BOOLEAN: parse_endpoint turns any advertised "host:port" text it cannot use into "no endpoint" (no exception leaves it)
           MaxHist
 \* manifest classes an adversary can put into a (validly signed) ANNOUNCE or hand to the control plane
@@ -23,7 +25,7 @@ Unusable(m)   == m \in {"dupidx", "zeroidx"}             \* Shamir::combine thro
 Admissible(m) == m = "ok" \/ (~ValidateIndices /\ Unusable(m))   \* pass validate_shards + TTL + id checks
 VARIABLES cached,   \* cached[c] \in MClasses \cup {"none"} : manifest cached (and key shares published) for c
           held,     \* held[c] : a chunk record exists locally
-          pendEp,   \* pendEp[c] \in {"none", "ok", "hostile"} : a fetch of c is pending at an announcer whose advertised endpoint text is usable / attacker-made
+          pendEp,   \* pendEp[c] \in {"none", "ok", "hostile", "relayhint"} : a fetch of c is pending at an announcer whose advertised endpoint text is usable / attacker-made / usable but dead while the manifest carries a relay hint
           sess,     \* the announcer's session is up (requests go over it; the advertised endpoint is parsed only once it is gone)
           obs, alive, hist
 vars == <<cached, held, pendEp, sess, obs, alive, hist>>
@@ -70,14 +72,16 @@ AnnounceAssign(c, ep) == /\ sess /\ cached' = [cached EXCEPT ![c] = "ok"]
 PeerDrop == sess /\ sess' = FALSE /\ Out("ignored") /\ UNCHANGED <<cached, held, pendEp>>
 \* the daemon's loop: Node::tick() -> process_pending_fetches -> dispatch_pending_fetch; with the session gone it falls back to the
 \* advertised endpoint and parses that text.  tick() runs on the main thread with no handler around it
-Tick == /\ Out(IF ~sess /\ (\E c \in Chunks : pendEp[c] = "hostile") /\ ~GuardEndpoint THEN "threw" ELSE "handled")
+Tick == /\ Out(IF ~sess /\ (\E c \in Chunks : pendEp[c] = "hostile") /\ ~GuardEndpoint THEN "threw"
+               ELSE IF ~sess /\ (\E c \in Chunks : pendEp[c] = "relayhint") /\ ~RelayClientChecked THEN "killed"     \* the direct attempt fails, the hints are walked
+               ELSE "handled")
         /\ UNCHANGED <<cached, held, pendEp, sess>>
 
 Acts == {[op |-> "announce", c |-> c, m |-> m] : c \in Chunks, m \in MClasses}
    \cup {[op |-> "chunk", c |-> c] : c \in Chunks} \cup {[op |-> "store", c |-> c] : c \in Chunks}
    \cup {[op |-> "ctlfetch", c |-> c, m |-> m] : c \in Chunks, m \in {"ok", "dupidx", "zeroidx", "garbage", "expired"}}
    \cup {[op |-> "other"], [op |-> "ctlemptyout"], [op |-> "ctlmalformed"], [op |-> "ctlabort"], [op |-> "peerabort"], [op |-> "wire"], [op |-> "prehs"]}
-   \cup {[op |-> "annassign", c |-> c, ep |-> ep] : c \in Chunks, ep \in {"ok", "hostile"}} \cup {[op |-> "peerdrop"], [op |-> "ticks"]}
+   \cup {[op |-> "annassign", c |-> c, ep |-> ep] : c \in Chunks, ep \in {"ok", "hostile", "relayhint"}} \cup {[op |-> "peerdrop"], [op |-> "ticks"]}
 Do(a) == CASE a.op = "announce" -> Announce(a.c, a.m) [] a.op = "chunk" -> ChunkMsg(a.c) [] a.op = "store" -> Store(a.c)
            [] a.op = "ctlfetch" -> CtlFetch(a.c, a.m) [] a.op = "other" -> Other
            [] a.op = "ctlemptyout" -> CtlFetchEmptyOut [] a.op = "ctlmalformed" -> CtlMalformed
@@ -92,5 +96,6 @@ Bound == Len(hist) <= MaxHist
 C35_NoThrow == obs \notin {"threw", "killed"} /\ alive
 Reach_PoisonThenChunk == ~(\E i \in 1..Len(hist) : hist[i].op = "chunk" /\ i > 1 /\ hist[i-1].op = "announce" /\ hist[i-1].m = "dupidx" /\ hist[i-1].c = hist[i].c)
 Reach_HostileEndpointParsed == ~(obs = "handled" /\ ~sess /\ \E c \in Chunks : pendEp[c] = "hostile" /\ hist # <<>> /\ hist[Len(hist)].op = "ticks")
+Reach_RelayHintWalked == ~(obs = "handled" /\ ~sess /\ \E c \in Chunks : pendEp[c] = "relayhint" /\ hist # <<>> /\ hist[Len(hist)].op = "ticks")
 Reach_PoisonHeldThenFetch == ~(\E c \in Chunks : held[c] /\ Unusable(cached[c]))
 =============================================================================
